@@ -492,6 +492,10 @@ def kani_playback(scratch, o, native):
     for m, srcrel in inv.items():
         if srcrel[:-3].replace("/", "::") == modpath and o.get("module", m) == m:
             modfile = m
+    srcfile = None
+    if o.get("module") in CHILD_OF_GEN:  # harness file included from the generated module of its owner
+        modfile = o["module"]
+        srcfile = os.path.join(scratch.root, "gen_" + CHILD_OF_GEN[modfile])
     if modfile is None:
         return res
     pbcopy = os.path.join(scratch.root, "pb_" + modfile)
@@ -501,7 +505,8 @@ def kani_playback(scratch, o, native):
     names = re.findall(r"fn (kani_concrete_playback_\w+)", test)
     with open(pbcopy, "w") as f:
         f.write(body + "\n" + test + "\n")
-    srcfile = os.path.join(scratch.src, "src", inv[modfile])
+    if srcfile is None:
+        srcfile = os.path.join(scratch.src, "src", inv[modfile])
     orig = open(srcfile).read()
     try:
         with open(srcfile, "w") as f:
